@@ -446,6 +446,46 @@ func runHistories(res *hk.Result, scn int) {
 		}
 	}
 	rec()
+	// an empty list lists nothing: with a signer configured and SignEventTypes nil or empty no event type is
+	// listed for signing, so nothing is signed (and a failing signer cannot make the event fail)
+	for _, failing := range []bool{false, true} {
+		for li, list := range [][]string{nil, {}} {
+			res.Add("execs", 1)
+			res.Add("steps", 1)
+			res.Add("nodes", 1)
+			calls := 0
+			f := &ce.FormatterFilter{SignEventTypes: list, Signer: func(_ context.Context, b []byte) (string, error) {
+				calls++
+				if failing {
+					return "", errSign
+				}
+				return "sig", nil
+			}}
+			f.Source, _ = url.Parse("https://example.test/src")
+			e := &el.Event{Type: "audit", CreatedAt: time.Unix(1700000000, 0), Formatted: map[string][]byte{}, Payload: plainP{Name: "e", N: 1}}
+			out, err := f.Process(context.Background(), e)
+			name := fmt.Sprintf("signer configured (failing=%v), SignEventTypes empty (variant %d)", failing, li)
+			v := ""
+			if err != nil || out != e {
+				v = fmt.Sprintf("no event type is listed for signing: want the event forwarded unsigned, got (%v, %v)", out, err)
+			} else {
+				b, _ := e.Format(string(ce.FormatJSON))
+				var doc map[string]interface{}
+				json.Unmarshal(b, &doc)
+				_, hasSer := doc["serialized"]
+				_, hasMac := doc["serialized_hmac"]
+				if hasSer || hasMac || calls != 0 {
+					v = fmt.Sprintf("the event was signed (signer calls: %d) although its type is not listed for signing (the list is empty)", calls)
+				}
+			}
+			if v != "" {
+				if !res.AddViolation(prop, hk.Viol{Scn: scn, Name: name, Kind: "oracle", Detail: name + ": " + v}) {
+					return
+				}
+			}
+			res.Outcome("empty-list")
+		}
+	}
 	res.Samples = append(res.Samples, "history initial-signer=\"\" steps=[P-listed R-A P-listed]: first event unsigned, second signed by A")
 }
 
@@ -496,8 +536,8 @@ func main() {
 			res.Samples = append(res.Samples, cases[job.Scn*chunk].String())
 			return res
 		},
-		Rule:        "the full product payload {plain, ID, Data, ID+Data, ID()==\"\", Data()==nil} x Format {unset, json, text, invalid} x Source {set, nil, empty} x Schema {nil, set, empty} x Signer {nil, succeeding, failing, failing while the context becomes done} x event type {listed, not listed for signing} x Predicate {nil, true, false, error} = 6912 cases on the real FormatterFilter; the emitted bytes are parsed back: required members, specversion 1.0, time, data (payload or Data()), content type, schema, indentation, fresh unique ids; signed iff signer and listed, serialized base64url-decodes to exactly the bytes the signer saw and to the unsigned document (byte-identical to an unsigned twin run when the id is fixed), serialized_hmac is the signer's result; failing signer => not forwarded; the document stored for the previously formatted event stays unchanged; invalid configurations and empty IDs rejected. Plus every history of up to 4 steps over {Process a listed type, Process an unlisted type, Rotate(A), Rotate(B)} from a filter without a signer or with signer A (680 histories): a listed event is signed by exactly the signer configured at that moment, an unlisted one never.",
+		Rule:        "the full product payload {plain, ID, Data, ID+Data, ID()==\"\", Data()==nil} x Format {unset, json, text, invalid} x Source {set, nil, empty} x Schema {nil, set, empty} x Signer {nil, succeeding, failing, failing while the context becomes done} x event type {listed, not listed for signing} x Predicate {nil, true, false, error} = 6912 cases on the real FormatterFilter; the emitted bytes are parsed back: required members, specversion 1.0, time, data (payload or Data()), content type, schema, indentation, fresh unique ids; signed iff signer and listed, serialized base64url-decodes to exactly the bytes the signer saw and to the unsigned document (byte-identical to an unsigned twin run when the id is fixed), serialized_hmac is the signer's result; failing signer => not forwarded; the document stored for the previously formatted event stays unchanged; invalid configurations and empty IDs rejected. Plus every history of up to 4 steps over {Process a listed type, Process an unlisted type, Rotate(A), Rotate(B)} from a filter without a signer or with signer A (680 histories): a listed event is signed by exactly the signer configured at that moment, an unlisted one never; and a signer with an empty / nil SignEventTypes list signs nothing.",
 		Assumptions: []string{"uniqueness of generated ids is checked across the cases of one worker process only (probabilistic property of a 10-character random id)"},
-		QuickBudget: 120 * time.Second, ThoroughBudget: 10 * time.Minute,
+		QuickBudget: 300 * time.Second, ThoroughBudget: 10 * time.Minute,
 	})
 }
